@@ -328,7 +328,7 @@ func TestC09(t *testing.T) {
 		return
 	}
 	debug.SetGCPercent(400)
-	ev.Rule("(a) field matrix: every length/count/offset/dimension/type field in the field map of every seed (repository images and profile, grammar-built files incl. multi-record mluc, hostile mini-files; ICC fields of embedded profiles included) x ~40 hostile values (0,1,2,7,8,9,11,12,13,127,128,255,256,65535,65536,2^24-1,2^24,2^31-1,2^31,2^32-1, field+-1, field+-12, remaining length +-1, values making offset+size wrap 2^32), singly and in rapid-chosen pairs; (b) rapid structure-aware mutation (1-4 operators: set-field, truncate, duplicate/drop/swap chunk, splice two files, flip bits, change a type tag) of generated valid files and seeds; (c) every truncation of every seed <= 8 KiB; (d) amplifier inputs (maximal-ratio deflate, many tags, many mluc records, 255 JPEG chunks). Entry chain per input: Load -> ICCProfile -> Description (or ReadProfile -> Description). Oracle: no escaping panic, TotalAlloc delta <= 1 MiB + B*len(input), return within 10 s + 1 s/MiB. non-trivial = distinct mutated input whose signature is still accepted by the targeted entry point")
+	ev.Rule("(a) field matrix: every length/count/offset/dimension/type field in the field map of every seed (repository images and profile, grammar-built files incl. multi-record mluc, hostile mini-files; ICC fields of embedded profiles included) x ~40 hostile values (0,1,2,7,8,9,11,12,13,127,128,255,256,65535,65536,2^24-1,2^24,2^31-1,2^31,2^32-1, field+-1, field+-12, remaining length +-1, values making offset+size wrap 2^32), singly and in rapid-chosen pairs; (b) rapid structure-aware mutation (1-4 operators: set-field, truncate, duplicate/drop/swap chunk, splice two files, flip bits, change a type tag) of generated valid files and seeds; (a4) v2 textDescription tags built field by field (ASCII count x Unicode count incl. counts whose doubling wraps 2^32 x units present x ScriptCode count); (c) every truncation of every seed <= 8 KiB; (d) amplifier inputs (maximal-ratio deflate, many tags, many mluc records, 255 JPEG chunks). Entry chain per input: Load -> ICCProfile -> Description (or ReadProfile -> Description). Oracle: no escaping panic, TotalAlloc delta <= 1 MiB + B*len(input), return within 10 s + 1 s/MiB. non-trivial = distinct mutated input whose signature is still accepted by the targeted entry point")
 	ev.Set("alloc_bound", map[string]any{"A_bytes": boundA, "B_per_input_byte": boundB})
 	ev.Assume("allocation is observed as the runtime.MemStats.TotalAlloc delta around the call (process-wide; a violation is re-measured once); absence over all byte strings is not established")
 	rc := &recorder{bad: map[string]bool{}}
